@@ -123,6 +123,7 @@ type pathEnum struct {
 	unsup       []string
 	inLoop      int
 	frameBind   bool // applying the result binding of an inline frame
+	linkFields  bool // a boolean field stored once on a path is what later reads of it on that path see
 }
 
 const pathCap = 4096
@@ -449,7 +450,8 @@ func (pe *pathEnum) applyAssign(q *Path, s ast.Stmt, assigned []types.Object) {
 					continue
 				}
 				b, ok := o.Type().Underlying().(*types.Basic)
-				if !ok || b.Info()&types.IsBoolean == 0 || hasCall(as.Rhs[i]) {
+				if !ok || b.Info()&types.IsBoolean == 0 || (hasCall(as.Rhs[i]) && pe.inLoop > 0) {
+					// (outside loops a call occurrence is evaluated once on a path: the variable is that occurrence's value)
 					continue
 				}
 				rhs := pe.xlat(old, oldDefs).formula(as.Rhs[i])
@@ -561,6 +563,9 @@ func (pe *pathEnum) stmt(in []Path, s ast.Stmt) []Path {
 			q := extend(p, evs)
 			if len(assigned) > 0 {
 				pe.applyAssign(&q, s, assigned)
+			}
+			if as, ok := s.(*ast.AssignStmt); ok && pe.linkFields && as.Tok == token.ASSIGN {
+				pe.linkFieldStores(&q, as)
 			}
 			out = append(out, q)
 		}
@@ -1206,4 +1211,65 @@ func boolConst(info *types.Info, e ast.Expr) (bool, bool) {
 		return tv.Value.String() == "true", true
 	}
 	return false, false
+}
+
+// linkFieldStores (opt-in, tableSpec.LinkFields): `x.f = e` for a boolean field records x.f ⇔ e on the path, so that a
+// later read of x.f on the same path (e.g. in a helper spliced in below) is decided by what was stored. Fields are
+// not versioned, so this is done only when it is exact: the path has not read the field before the store (an earlier
+// read saw the old value) — then nothing is recorded — and a second store on one path makes the enumeration
+// incomplete (reported as undecided) rather than wrong.
+func (pe *pathEnum) linkFieldStores(q *Path, as *ast.AssignStmt) {
+	if len(as.Lhs) != len(as.Rhs) {
+		return
+	}
+	for i, l := range as.Lhs {
+		se, ok := ast.Unparen(l).(*ast.SelectorExpr)
+		if !ok {
+			continue
+		}
+		tv, ok := pe.info.Types[se]
+		if !ok || tv.Type == nil || !isBoolType(tv.Type) {
+			continue
+		}
+		x := pe.xlatP(q)
+		lit, ok := x.formula(se).(*FLit)
+		if !ok {
+			continue
+		}
+		rhs := x.formula(as.Rhs[i])
+		label := "fieldstore:" + lit.Atom
+		read, stored := false, false
+		for _, cs := range q.Conds {
+			if cs.Label == label {
+				stored = true
+			}
+			if cs.F != nil && formulaMentions(cs.F, lit.Atom) {
+				read = true
+			}
+		}
+		if stored {
+			pe.unsup = append(pe.unsup, "boolean field stored twice on one path")
+			continue
+		}
+		if read {
+			continue
+		}
+		// lhs ⇔ rhs
+		f := fnot(fand(fnot(fand(lit, rhs)), fnot(fand(fnot(lit), fnot(rhs)))))
+		q.Conds = append(q.Conds, CondStep{Label: label, At: len(q.Events), F: f, Ver: q.ver})
+	}
+}
+
+func formulaMentions(f Formula, atom string) bool {
+	switch x := f.(type) {
+	case *FLit:
+		return x.Atom == atom
+	case *FAnd:
+		return formulaMentions(x.L, atom) || formulaMentions(x.R, atom)
+	case *FOr:
+		return formulaMentions(x.L, atom) || formulaMentions(x.R, atom)
+	case *FNot:
+		return formulaMentions(x.X, atom)
+	}
+	return false
 }
